@@ -171,7 +171,8 @@ Proof.
     set (n := Z.min nleft (S - i)).
     assert (Hn' : 0 < n /\ n <= nleft /\ n <= S - i) by (unfold n; lia).
     destruct (getf src n) as [[m bytes] src1] eqn:Eg.
-    destruct (getf_spec _ _ nleft _ _ _ ltac:(lia) ltac:(lia) Hok Eg) as (G1 & G2 & G3 & G4 & G5).
+    assert (Hn1 : 0 < n) by lia. assert (Hn2 : n <= nleft) by lia.
+    destruct (getf_spec src n nleft m bytes src1 Hn1 Hn2 Hok Eg) as (G1 & G2 & G3 & G4 & G5).
     destruct (0 <? m) eqn:Em; [apply Z.ltb_lt in Em | apply Z.ltb_ge in Em].
     + rewrite Z.max_r in G2, G4 by lia.
       assert (SR : rot ((i + m) mod S) (splice data i bytes) = zdrop m (rot i data ++ bytes)).
@@ -191,9 +192,9 @@ Proof.
         split. { rewrite G3, W7, app_assoc. reflexivity. }
         split; [intros; lia|].
         intros bs Hs. destruct (G5 bs Hs) as (Gm & Gb & Gs). destruct (W9 _ Gs) as (W91 & W92).
-        split; [assumption|]. rewrite Gb, W92. subst m.
-        replace nleft with (n + (nleft - n)) at 3 by lia. rewrite ztake_split by lia. reflexivity.
-      * intros E; inversion E; subst; clear E. exists bytes. rewrite G2.
+        split; [assumption|]. rewrite W92, Gb. rewrite <- Enm.
+        rewrite <- ztake_split by lia. f_equal. lia.
+      * intros E; inversion E; subst data' i' nleft' src' m'; clear E. exists bytes. rewrite G2.
         split; [lia|]. split; [lia|]. split; [assumption|]. split; [assumption|].
         split; [reflexivity|]. split; [assumption|]. split; [assumption|].
         split; [intros; lia|].
@@ -205,4 +206,70 @@ Proof.
       split; [reflexivity|]. split; [reflexivity|]. split; [assumption|].
       split; [intros; lia|].
       intros bs Hs. destruct (G5 bs Hs). lia.
+Qed.
+
+(* ---- the metadata update ---- *)
+Lemma commit_spec cb n i_dst data' w :
+  Inv cb -> 0 < n -> zlen w = n ->
+  zlen data' = cb_size cb + 1 -> 0 <= i_dst < cb_size cb + 1 ->
+  i_dst = (cb_i_in cb + n) mod (cb_size cb + 1) ->
+  rot i_dst data' = zdrop n (rot (cb_i_in cb) (cb_data cb) ++ w) ->
+  let cb' := writer_commit cb (cb_size cb - cb_used cb) n i_dst data' in
+  Inv cb' /\ abs cb' = fifo_write (cb_size cb) (abs cb) w
+  /\ cb_used cb' = Z.min (cb_used cb + n) (cb_size cb)
+  /\ cb_size cb' = cb_size cb /\ cb_maxsize cb' = cb_maxsize cb /\ cb_minsize cb' = cb_minsize cb
+  /\ cb_overwrite cb' = cb_overwrite cb.
+Proof.
+  intros H Hn Lw Ld Hi Ei Hrot. pose proof (zlen_abs _ H) as LA.
+  pose proof (Inv_valid _ H) as V. unfold valid_prop in V. cbv zeta in V.
+  destruct H as (_ & Ldata & Halloc).
+  set (S := cb_size cb + 1) in *.
+  assert (Iin : (cb_i_out cb + cb_used cb) mod S = cb_i_in cb) by (subst S; mod_split; lia).
+  cbv zeta. unfold writer_commit. fold S.
+  set (nrepl := (cb_i_out cb - cb_i_rep cb + S) mod S).
+  assert (Hnrepl : 0 <= nrepl < S) by (apply Z.mod_pos_bound; subst S; lia).
+  set (nfree := cb_size cb - cb_used cb).
+  set (wrap := nfree - nrepl <? n).
+  set (i_rep' := if wrap then (i_dst + 1) mod S else cb_i_rep cb).
+  set (i_out' := if nfree <? n then i_rep' else cb_i_out cb).
+  set (used' := Z.min (cb_used cb + n) (cb_size cb)).
+  proj_simpl.
+  (* arithmetic of the new indices *)
+  assert (A1 : 0 <= i_out' < S /\ 0 <= used' < S /\ (i_out' + used') mod S = i_dst).
+  { subst i_out' i_rep' used' wrap nfree nrepl S.
+    destruct (cb_size cb - cb_used cb <? n) eqn:Eo; [apply Z.ltb_lt in Eo | apply Z.ltb_ge in Eo].
+    - replace (cb_size cb - cb_used cb - (cb_i_out cb - cb_i_rep cb + (cb_size cb + 1)) mod (cb_size cb + 1) <? n) with true
+        by (symmetry; apply Z.ltb_lt; lia).
+      clear Ei Hrot. mod_split; lia.
+    - mod_split; lia. }
+  destruct A1 as (A1 & A2 & A3).
+  split.
+  { apply Inv_intro; proj_simpl; [|assumption|assumption].
+    unfold valid_prop. proj_simpl. cbv zeta. fold S.
+    subst i_out' i_rep' used' wrap nfree nrepl.
+    destruct (cb_size cb - cb_used cb <? n) eqn:Eo; [apply Z.ltb_lt in Eo | apply Z.ltb_ge in Eo].
+    - replace (cb_size cb - cb_used cb - (cb_i_out cb - cb_i_rep cb + S) mod S <? n) with true
+        by (symmetry; apply Z.ltb_lt; lia).
+      clear Ei Hrot A3 Iin. subst S. mod_split; intuition lia.
+    - destruct (cb_size cb - cb_used cb - (cb_i_out cb - cb_i_rep cb + S) mod S <? n) eqn:Ew;
+        [apply Z.ltb_lt in Ew | apply Z.ltb_ge in Ew]; clear Hrot A3; subst S; mod_split; intuition lia. }
+  split.
+  { unfold abs. proj_simpl. fold (rot i_out' data'). fold (rot (cb_i_out cb) (cb_data cb)).
+    assert (Ld' : zlen data' = S) by assumption.
+    rewrite (abs_window data' i_out' used') by (rewrite Ld'; lia). rewrite Ld', A3, Hrot.
+    set (R := rot (cb_i_in cb) (cb_data cb)).
+    assert (LR : zlen R = S) by (unfold R; rewrite zlen_rot; assumption).
+    assert (EA : ztake (cb_used cb) (rot (cb_i_out cb) (cb_data cb)) = zdrop (S - cb_used cb) R).
+    { unfold R. rewrite <- Iin. rewrite <- Ldata at 1 3. rewrite <- abs_window by lia. reflexivity. }
+    rewrite EA.
+    unfold fifo_write, qlast. change qskip with (@zdrop byte). change qlen with (@zlen byte).
+    rewrite zdrop_zdrop by lia.
+    rewrite <- (ztake_zdrop (S - cb_used cb) R) at 1. rewrite <- app_assoc.
+    assert (LF : zlen (ztake (S - cb_used cb) R) = S - cb_used cb) by (rewrite zlen_ztake; lia).
+    assert (LD : zlen (zdrop (S - cb_used cb) R) = cb_used cb) by (rewrite zlen_zdrop; lia).
+    rewrite zdrop_app_r by (subst used'; lia). rewrite LF, zlen_app, LD, Lw.
+    subst used'. destruct (Z_le_gt_dec (cb_used cb + n) (cb_size cb)).
+    - rewrite Z.min_l by lia. rewrite !zdrop_neg by (subst S; lia). reflexivity.
+    - rewrite Z.min_r by lia. f_equal. subst S. lia. }
+  repeat split; reflexivity.
 Qed.
